@@ -516,7 +516,14 @@ def oracles_sync(op, S0, S1, out, hist, stats):
                     stats["c11_body_carried_checked"] = stats.get("c11_body_carried_checked", 0) + 1
                     tb = resolver.body_statements(truth["node"])
                     if tb and not _subsequence(tb, resolver.body_statements(node)):
-                        v.append(viol("C11", "B-body-not-carried", op, "%s in %s: statements of the truth function that are not part of its interface are missing from the function sync wrote" % (name, f), **common))
+                        have = set(resolver.body_statements(node))
+                        tbody = [s for s in truth["node"].body if ast.dump(s) in set(tb)]
+                        lost = [s for s in tbody if ast.dump(s) not in have]
+                        # which statements are missing: only a final `return <string literal>` (re-created from the return
+                        # entry of the description), or anything else
+                        only_str_return = bool(lost) and all(isinstance(s, ast.Return) and isinstance(s.value, ast.Constant) and isinstance(s.value.value, str) for s in lost)
+                        v.append(viol("C11", "B-body-not-carried", op, "%s in %s: statements of the truth function that are not part of its interface are missing from the function sync wrote: %s" % (
+                            name, f, "; ".join(ast.unparse(s) for s in lost)[:160]), lost="return-of-str-literal" if only_str_return else "other", **common))
         # C11 - conservation of everything else
         before = S0.get(f)
         if before is not None and before != after and not is_truth:
